@@ -3,6 +3,7 @@ package vg
 import (
 	"encoding/json"
 	"fmt"
+	"os"
 	"reflect"
 	"sort"
 	"strings"
@@ -80,6 +81,7 @@ type RefClient struct {
 	// still unanswered (the gateway may count that request as a subscription).
 	DropPending    map[string]bool
 	Unsubs         []UnsubCheck
+	Debug          bool
 	Redundant      int // resources re-sent although already held
 	GetRootMissing int
 	Frames         int
@@ -343,6 +345,18 @@ func methodParts(m string) (action, rid, method string) {
 
 // Process applies one frame.
 func (rc *RefClient) Process(f *Frame) {
+	if rc.Debug {
+		defer func() {
+			var pend []string
+			for id, sr := range rc.sent {
+				if rc.Responses[id] == 0 && !sr.Fence {
+					pend = append(pend, fmt.Sprintf("%d:%s@%d", id, sr.Method, sr.T))
+				}
+			}
+			sort.Strings(pend)
+			fmt.Fprintf(os.Stderr, "RC conn=%d t=%d %s\n   retained=%v direct=%v pending=%v\n", rc.Conn, f.T, trunc200(f.Raw), rc.Retained(), rc.Direct, pend)
+		}()
+	}
 	rc.Frames++
 	if f.Bad {
 		rc.viol("C15", f.T, "", "badFrame", "frame is not a JSON object: %s", f.Raw)
@@ -655,6 +669,13 @@ func Compact(v interface{}) string {
 	b, _ := json.Marshal(v)
 	if len(b) > 400 {
 		return string(b[:400]) + "..."
+	}
+	return string(b)
+}
+
+func trunc200(b []byte) string {
+	if len(b) > 200 {
+		return string(b[:200]) + "..."
 	}
 	return string(b)
 }
